@@ -89,14 +89,16 @@ def format_tag_value(value: Any) -> str:
     Format a tag value.
     """
     # Simple strings (no spaces or commas or special values) can be displayed without quotes.
-    if (
-        isinstance(value, str)
-        and not re.match(".*[ ,].*", value)
-        and isinstance(parse_tag_value(value), str)
-    ):
-        return value
-    else:
-        return json.dumps(value, sort_keys=True)
+    if isinstance(value, str) and not re.match(".*[ ,].*", value):
+        try:
+            # A string is simple if the cli parser reads it back unchanged.
+            is_simple = parse_tag_value(value) == value
+        except ValueError:
+            # Strings that look like malformed JSON (e.g. "[") must be quoted.
+            is_simple = False
+        if is_simple:
+            return value
+    return json.dumps(value, sort_keys=True)
 
 
 def format_tag_key_value(key: str, value: Any, max_length: int = 50) -> str:
